@@ -921,10 +921,19 @@ func (e *Exec) selectInstr(s *State, x *ssa.Select) Value {
 	s.assume(And(e.ile(lo, idx), e.ilt(idx, e.idx(int64(n)))))
 	out := []Value{idx, TS.Fresh("selok", "Bool")}
 	for _, st := range x.States {
+		if st.Dir == types.SendOnly && e.quiet == 0 {
+			e.assertValInv(s, e.val(s, st.Send), st.Send.Type(), x, "sent on a channel (select)")
+			for _, ci := range e.chanInvsFor(st.Chan) {
+				g := e.evalChanInv(ci, s, e.val(s, st.Send), st.Send.Type())
+				e.obls = append(e.obls, &Obligation{Name: e.oblName("chaninv/" + ci.Var), Kind: "chaninv", Pos: x.Pos(), Goal: g, Hyp: s.pc, Func: e.funcKey,
+					Text: "sent on " + ci.Var + " (select): " + ci.Clause.Text, Props: unionProps(orProps(ci.Props, e.props)), Mode: e.mode, exec: e})
+			}
+		}
 		if st.Dir == types.RecvOnly {
 			et := st.Chan.Type().Underlying().(*types.Chan).Elem()
 			rv := e.freshValue(s, "selrecv", et)
 			e.assumeValInv(s, rv, et)
+			e.assumeChanInv(s, st.Chan, rv)
 			out = append(out, rv)
 		}
 	}
@@ -933,6 +942,13 @@ func (e *Exec) selectInstr(s *State, x *ssa.Select) Value {
 
 func (e *Exec) sendInstr(s *State, x *ssa.Send) {
 	e.assertValInv(s, e.val(s, x.X), x.X.Type(), x, "sent on a channel")
+	if e.quiet == 0 {
+		for _, ci := range e.chanInvsFor(x.Chan) {
+			g := e.evalChanInv(ci, s, e.val(s, x.X), x.X.Type())
+			e.obls = append(e.obls, &Obligation{Name: e.oblName("chaninv/" + ci.Var), Kind: "chaninv", Pos: x.Pos(), Goal: g, Hyp: s.pc, Func: e.funcKey,
+				Text: "sent on " + ci.Var + ": " + ci.Clause.Text, Props: unionProps(orProps(ci.Props, e.props)), Mode: e.mode, exec: e})
+		}
+	}
 	e.logAbs("channel send: no effect on the sending thread")
 	if e.fc != nil {
 		// hook for lock-scoped send rule
